@@ -38,7 +38,12 @@ def mask (i : Inst) (s : State) (a : Nat) : Bool :=
 /-- `_step`: the clock is advanced with the *cached* distance row, then `super()._step(td)`, whose last
 statement recomputes the mask (and the cache) from the new current node. -/
 def step (i : Inst) (s : State) (a : Nat) : State :=
-  let t' := if a ≠ 0 then max (s.time + s.dist a) (i.twS a) + i.dur a else 0
+  -- `(action != 0) * (max(current_time + distance, tw_start) + duration)`; the comparison with 0 and the
+  -- place of `+ duration` (after the max) are extracted from the source
+  let served :=
+    if Params.cvrptwStepDurAfterMax then max (s.time + s.dist a) (i.twS a) + i.dur a
+    else max (s.time + s.dist a + i.dur a) (i.twS a)
+  let t' := if Params.cvrptwStepDepotCmp.evalNat a 0 then served else 0
   refresh i (Cvrp.step i.base s.base a) t'
 
 def done (i : Inst) (s : State) : Bool := Cvrp.done i.base s.base
@@ -61,20 +66,23 @@ deadline of BATCH ROW 0 (for a solo instance `e0 = twE 0`).  `distances >= 0` is
 def checkStatic (i : Inst) (e0 : Int) : Bool :=
   (List.range (i.base.n + 1)).all (fun j =>
     decide (0 ≤ i.base.D 0 j) && decide (0 ≤ i.twS j) && decide (0 ≤ i.twE j) &&
-    decide (i.twS j + i.base.D 0 j + i.dur j ≤ e0) && decide (0 ≤ i.dur j) &&
-    decide (i.twS j < i.twE j))
+    Params.cvrptwCheckStaticCmp.eval (i.twS j + i.base.D 0 j + i.dur j) e0 && decide (0 ≤ i.dur j) &&
+    Params.cvrptwCheckOrderCmp.eval (i.twS j) (i.twE j))
 
 /-- the clock simulation of the checker: `curr_time = max((curr_time + dist).int(), tw_start)`,
 assert `curr_time <= tw_end`, `curr_time += duration`, `curr_time[node == 0] = 0`. -/
 def checkClock (i : Inst) (unit : Int) : Int → Nat → List Nat → Bool
   | _, _, [] => true
   | t, cur, a :: as =>
-    let t1 := max (truncInt unit (t + i.base.D cur a)) (i.twS a)
+    let arr := t + i.base.D cur a
+    let t1 := max (if Params.cvrptwCheckTruncates then truncInt unit arr else arr) (i.twS a)
     Params.cvrptwCheckTwCmp.eval t1 (i.twE a) &&
       checkClock i unit (if a = 0 then 0 else t1 + i.dur a) a as
 
 /-- `check_solution_validity` (True = no assertion raised). -/
 def check (i : Inst) (tol unit e0 : Int) (as : List Nat) : Bool :=
-  Cvrp.check i.base tol as && checkStatic i e0 && checkClock i unit 0 0 as
+  -- the static assertion reads the depot deadline of batch row 0 (`e0`) iff the source indexes `[0]`
+  Cvrp.check i.base tol as && checkStatic i (if Params.cvrptwCheckRow0 then e0 else i.twE 0) &&
+    checkClock i unit 0 0 as
 
 end Rl4co.Cvrptw
